@@ -102,7 +102,9 @@ def st_gm(draw):
          "start": draw(st.sampled_from(["zero", "rand", "rand", "optimum"])), "func": draw(st.booleans()),
          # memory layout of the caller's x; "alias": f = 1/2||x||^2 handed over as gradf = lambda v: v (returns its argument)
          "layout": draw(st.sampled_from(["c", "c", "c", "strided", "revstride"])),
-         "alias": draw(st.sampled_from([False] * 7 + [True]))}
+         "alias": draw(st.sampled_from([False] * 7 + [True])),
+         # how the boolean flag is spelled by the caller: Python bool, numpy.bool_ (a comparison result), or 0/1
+         "flag": draw(st.sampled_from(["bool", "bool", "np.bool_", "int"]))}
     if c["g"] == "box":
         c["cplx"] = False
     if c["alias"]:
@@ -150,7 +152,12 @@ def check_gm(case):
         gradf = (lambda v: v)
         r.label("gradf-returns-its-argument")
     pg = proxg if not case["func"] or proxg is None else (lambda a, v, _p=proxg: _p(a, v))
-    alg = sp.alg.GradientMethod(gradf, x, alpha, proxg=pg, accelerate=case["accelerate"], max_iter=case["K"], tol=0)
+    acc = case["accelerate"]
+    if case.get("flag") == "np.bool_":
+        acc = np.bool_(acc)
+    elif case.get("flag") == "int":
+        acc = int(acc)
+    alg = sp.alg.GradientMethod(gradf, x, alpha, proxg=pg, accelerate=acc, max_iter=case["K"], tol=0)
     d0 = float(np.linalg.norm(x - xs) ** 2)
     F_prev = prob.F(x)
     scale = max(abs(Fs), abs(F_prev), 1e-12)
